@@ -17,7 +17,7 @@ RULE = ("originals x derivation route in {Sequence.copy, Bar.copy, Track.copy, C
         "original, chosen per case); the untouched side must keep its events and duration in both views and its views must "
         "agree; copies must equal their original. Non-trivial: the mutated side really changed.")
 PLAN = {"quick": {"cases": 2500, "jobs": 4, "timeout": 600},
-        "thorough": {"cases": 150000, "jobs": 16, "timeout": 3000, "budget_s": 420}}
+        "thorough": {"cases": 2000000, "jobs": 16, "timeout": 3000, "budget_s": 360}}
 ROUTES = ["seq_copy", "bar_copy", "track_copy", "composition_copy", "split", "split_bars_q", "split_bars_noq"]
 OPS = ["transpose", "set_channel", "scale", "pad", "iter_abs_edit", "iter_rel_edit", "quantise", "qnl", "normalise", "cutoff",
        "merge", "overwrite_abs", "overwrite_rel", "add_abs", "add_rel", "bar_transpose", "transpose_wrap"]
